@@ -663,6 +663,7 @@ def scenarios_for(rng, tier):
         scs.append(build_scenario(rng, "bess", n(5, 8), 5, "bess_a"))
         scs.append(build_scenario(rng, "bess", 2, 8, "bess_b", pause=150))
         scs.append(build_scenario(rng, "node", n(3, 6), 4, "node_a"))
+        scs.append(build_scenario(rng, "node", 8, 3, "node_b", pause=0))
         scs.append(build_scenario(rng, "up4", n(4, 8), 5, "up4_a", pause=200))
         scs.append(build_scenario(rng, "up4", 2, 6, "up4_b", pause=50))
         scs.append(build_scenario(rng, "bess", n(3, 5), 3, "bess_small_pool", pool="10.250.0.0/26", pause=0))
@@ -755,7 +756,7 @@ def run(tier, seed, replay=None):
         r["fails"] = seen_f22 + r["fails"]
         results[i] = r
     ths = [threading.Thread(target=job, args=(i,)) for i in range(len(scs))]
-    par = 6
+    par = 7
     for k in range(0, len(ths), par):
         for t in ths[k:k + par]:
             t.start()
